@@ -1275,15 +1275,127 @@ Proof.
   apply export_layer_np; auto. eapply temp_cell_nonneg; eauto.
 Qed.
 
+(** ** export_stack (fix-stack-raw-layers): what validation alone gives ([pre_vs], no hypothesis on the
+    stack), and that the repaired export_stack, when it returns Ok, has established [good_vs] -- every
+    later `.raw.unwrap()` then finds a raw layer. *)
+Definition pre_vm (vm : vmetal) : Prop :=
+  0 < vm_pitch vm /\ vm_sigs vm = filter is_sig (walk (entries (vm_spec vm)) (m_offset (vm_spec vm))).
+Definition pre_vs (vs : vstack) : Prop :=
+  0 < s_px (vs_stack vs) /\ 0 < s_py (vs_stack vs) /\ Forall pre_vm (vs_metals vs) /\
+  length (vs_pitches vs) = length (vs_metals vs).
+
+Lemma validate_metals_pre : forall px py ms i vms,
+  validate_metals px py ms i = Ok vms -> Forall pre_vm vms.
+Proof.
+  intros px py ms. induction ms as [|m ms IH]; intros i vms H; simpl in H.
+  - inversion H; constructor.
+  - destruct (validate_metal px py m i) as [v| |] eqn:Hv; simpl in H; try discriminate.
+    destruct (validate_metals px py ms (i + 1)) as [vs| |] eqn:Hvs; simpl in H; try discriminate.
+    inversion H; subst. constructor; [|eapply IH; eauto].
+    destruct (validate_metal_data _ _ _ _ _ Hv) as [A [_ [B [C D]]]].
+    unfold pre_vm. rewrite A. split; auto. lia.
+Qed.
+
+Lemma validate_stack_pre : forall st vs, validate_stack st = Ok vs -> pre_vs vs.
+Proof.
+  intros st vs H. unfold validate_stack in H.
+  unfold assert in H.
+  destruct (s_px st >? 0) eqn:Hx; simpl in H; [|discriminate].
+  destruct (s_py st >? 0) eqn:Hy; simpl in H; [|discriminate].
+  destruct (validate_metals _ _ _ _) as [vms| |] eqn:Hvms; simpl in H; try discriminate.
+  inversion H; subst vs; clear H. unfold pre_vs; simpl.
+  apply Z.gtb_lt in Hx. apply Z.gtb_lt in Hy. repeat split; auto; try lia.
+  - eapply validate_metals_pre; eauto.
+  - rewrite map_length, seq_length. reflexivity.
+Qed.
+
+Lemma mapM_ok_all : forall A B (f : A -> res B) l r, mapM f l = Ok r -> forall x, In x l -> exists y, f x = Ok y.
+Proof.
+  intros A B f l. induction l as [|a l IH]; intros r H x Hx; [destruct Hx|]. simpl in H.
+  destruct (f a) as [y| |] eqn:Hy; cbn [bind] in H; try discriminate.
+  destruct (mapM f l) as [ys| |] eqn:Hys; cbn [bind] in H; try discriminate.
+  destruct Hx as [<-|Hx]; [eauto|]. eapply IH; eauto.
+Qed.
+
+Lemma zseq_In : forall n k, (k < n)%nat -> In (Z.of_nat k) (zseq (Z.of_nat n)).
+Proof.
+  intros n k H. unfold zseq. apply in_map. rewrite Nat2Z.id. apply in_seq. lia.
+Qed.
+
+Lemma export_stack_np : forall fx vs, np (export_stack fx vs).
+Proof.
+  intros fx vs. unfold export_stack.
+  apply np_bind; [apply np_assert|]. intros _ _.
+  apply np_bind; [apply np_assert|]. intros _ _.
+  destruct (fx_raw fx); [|apply np_ok].
+  apply np_bind.
+  - apply np_mapM. intros idx _. apply np_bind; [apply metal_at_np|]. intros m _.
+    destruct (m_raw (vm_spec m)); [apply np_ok|apply np_err].
+  - intros _ _. apply np_bind; [|intros; apply np_ok].
+    apply np_mapM. intros v _. destruct (v_raw v); [apply np_ok|apply np_err].
+Qed.
+
+Lemma export_stack_good : forall vs u, pre_vs vs -> export_stack fixed vs = Ok u -> good_vs vs.
+Proof.
+  intros vs u [Hpx [Hpy [Hm Hlen]]] H. unfold export_stack in H.
+  destruct (assert (s_haslayers (vs_stack vs)) 560); cbn [bind] in H; try discriminate.
+  destruct (assert (s_hasboundary (vs_stack vs)) 561); cbn [bind] in H; try discriminate.
+  cbn [fx_raw fixed] in H.
+  destruct (mapM _ (zseq _)) as [r1| |] eqn:H1; cbn [bind] in H; try discriminate.
+  destruct (mapM _ (s_vias _)) as [r2| |] eqn:H2; cbn [bind] in H; try discriminate.
+  unfold good_vs. repeat split; auto.
+  - apply Forall_forall. intros vm Hin.
+    destruct (In_nth_error _ _ Hin) as [k Hk].
+    assert (Hkl : (k < length (vs_metals vs))%nat) by (apply nth_error_Some; congruence).
+    assert (Hz : In (Z.of_nat k) (zseq (zlen (vs_pitches vs)))).
+    { unfold zlen. rewrite Hlen. apply zseq_In. exact Hkl. }
+    destruct (mapM_ok_all _ _ _ _ _ H1 _ Hz) as [y Hy]. cbv beta in Hy.
+    unfold metal_at in Hy.
+    destruct (Z.of_nat k <? 0) eqn:E; [apply Z.ltb_lt in E; lia|].
+    rewrite Nat2Z.id, Hk in Hy. cbn [bind] in Hy.
+    rewrite Forall_forall in Hm. destruct (Hm _ Hin) as [P1 P2].
+    unfold good_vm. repeat split; auto.
+    destruct (m_raw (vm_spec vm)); [discriminate|discriminate].
+  - apply Forall_forall. intros v Hin.
+    destruct (mapM_ok_all _ _ _ _ _ H2 _ Hin) as [y Hy]. cbv beta in Hy.
+    destruct (v_raw v); discriminate.
+Qed.
+
+(** NO PANIC on ANY stack (repaired code): stack validation never panics, export_stack never panics,
+    and once it has returned Ok every metal and via layer has a raw layer. *)
+Theorem compile_fixed_no_panic_any : forall st cells c,
+  Forall cell_nonneg cells -> compile fixed st cells <> Panic c.
+Proof.
+  intros st cells c Hc. revert c. change (np (compile fixed st cells)). unfold compile.
+  apply np_bind; [apply validate_stack_np|]. intros vs Hvs.
+  pose proof (validate_stack_pre _ _ Hvs) as Hp. unfold convert.
+  apply np_bind; [apply np_mapM; intros; apply validate_layout_np|]. intros _ _.
+  apply np_bind; [apply export_stack_np|]. intros u Hu.
+  pose proof (export_stack_good _ _ Hp Hu) as Hg.
+  apply np_mapM. intros x Hx. apply export_layout_np; auto. rewrite Forall_forall in Hc. apply Hc; assumption.
+Qed.
+
+(** the statement as it stood before fix-stack-raw-layers (hypothesis [stack_drawable]): a corollary *)
 Theorem compile_fixed_no_panic : forall st cells c,
   stack_drawable st -> Forall cell_nonneg cells -> compile fixed st cells <> Panic c.
+Proof. intros st cells c _. apply compile_fixed_no_panic_any. Qed.
+
+(** The five earlier repairs alone ([fx_raw] = false, the tree of 2026-10-01): no panic on drawable stacks
+    -- [stack_drawable] is exactly what was missing. *)
+Definition fixed5 := mkFixes true true true true true false.
+
+Lemma fixed5_validate_layout : validate_layout fixed5 = validate_layout fixed. Proof. reflexivity. Qed.
+Lemma fixed5_export_layout : export_layout fixed5 = export_layout fixed. Proof. reflexivity. Qed.
+
+Theorem compile_fixed5_no_panic : forall st cells c,
+  stack_drawable st -> Forall cell_nonneg cells -> compile fixed5 st cells <> Panic c.
 Proof.
-  intros st cells c Hd Hc. revert c. change (np (compile fixed st cells)). unfold compile.
+  intros st cells c Hd Hc. revert c. change (np (compile fixed5 st cells)). unfold compile.
   apply np_bind; [apply validate_stack_np|]. intros vs Hvs.
   pose proof (validate_stack_good _ _ Hd Hvs) as Hg. unfold convert.
+  rewrite fixed5_validate_layout, fixed5_export_layout.
   apply np_bind; [apply np_mapM; intros; apply validate_layout_np|]. intros _ _.
-  apply np_bind; [apply np_assert|]. intros _ _.
-  apply np_bind; [apply np_assert|]. intros _ _.
+  apply np_bind; [apply export_stack_np|]. intros _ _.
   apply np_mapM. intros x Hx. apply export_layout_np; auto. rewrite Forall_forall in Hc. apply Hc; assumption.
 Qed.
 
@@ -1342,6 +1454,41 @@ Lemma orig_underflow_panics :
   (exists c, compile orig st_noflip cells_underflow = Panic c) /\
   (exists c, compile fixed st_noflip cells_underflow = Err c).
 Proof. vm_compute. split; eexists; reflexivity. Qed.
+
+(** (2026-10-02) a metal or via layer of the stack without a raw layer (`raw: None`): `.raw.unwrap()` in
+    export_track (the empty cell [cells_plain] on a stack whose metal 0 has no raw layer) resp. in the via of
+    an assignment (stack whose via 0 has no raw layer).  As found -- at the pinned commit [orig] and with the five
+    earlier repairs [fixed5] -- the thread panics; with fix-stack-raw-layers export_stack reports an Err.  A
+    raw-less layer the cell never draws on went unnoticed before the repair (Ok) and is an Err after it. *)
+Definition set_metal_raw (st : stack) (k : nat) (r : option Z) : stack :=
+  mkStack (s_px st) (s_py st)
+    (map (fun im => if Nat.eqb (fst im) k
+                    then mkMetal (m_horiz (snd im)) (m_cutsize (snd im)) (m_specs (snd im)) (m_offset (snd im))
+                                 (m_overlap (snd im)) (m_flip (snd im)) (m_primgrid (snd im)) r
+                    else snd im) (combine (seq 0 (length (s_metals st))) (s_metals st)))
+    (s_vias st) (s_haslayers st) (s_hasboundary st).
+Definition set_via_raw (st : stack) (k : nat) (r : option Z) : stack :=
+  mkStack (s_px st) (s_py st) (s_metals st)
+    (map (fun iv => if Nat.eqb (fst iv) k then mkVia (v_bot (snd iv)) (v_top (snd iv)) (v_sx (snd iv)) (v_sy (snd iv)) r
+                    else snd iv) (combine (seq 0 (length (s_vias st))) (s_vias st)))
+    (s_haslayers st) (s_hasboundary st).
+Definition st_noraw_metal0 := set_metal_raw st_noflip 0 None.
+Definition st_noraw_metal3 := set_metal_raw st_noflip 3 None.
+Definition st_noraw_via0 := set_via_raw st_noflip 0 None.
+Definition cells_plain := [mkCell 1 1 1 [] [] []].
+Definition cells_one_via := [mkCell 2 2 2 [] [] [(1, mkCross 0 0 1 0)]].
+
+Lemma orig_no_raw_layer_panics :
+  (compile orig st_noraw_metal0 cells_plain = Panic 540 /\ compile fixed5 st_noraw_metal0 cells_plain = Panic 540 /\
+   compile fixed st_noraw_metal0 cells_plain = Err 562) /\
+  (compile orig st_noraw_via0 cells_one_via = Panic 541 /\ compile fixed5 st_noraw_via0 cells_one_via = Panic 541 /\
+   compile fixed st_noraw_via0 cells_one_via = Err 563) /\
+  (* a raw-less layer that is never drawn: unnoticed before, an Err after; the control stack compiles either way *)
+  ((exists out, compile fixed5 st_noraw_metal3 cells_plain = Ok out) /\ compile fixed st_noraw_metal3 cells_plain = Err 562 /\
+   (exists out, compile fixed5 st_noraw_via0 cells_plain = Ok out) /\ compile fixed st_noraw_via0 cells_plain = Err 563 /\
+   compile fixed st_noflip cells_one_via = compile fixed5 st_noflip cells_one_via /\
+   exists out, compile fixed st_noflip cells_one_via = Ok out).
+Proof. vm_compute. repeat split; try reflexivity; eexists; reflexivity. Qed.
 
 (** a cut (or assignment) on a layer that exists in the stack but not below the cell's `metals`:
     `cuts[cut.track.layer]` is out of bounds *)
